@@ -7,6 +7,7 @@ import (
 	"os"
 	"strconv"
 
+	"verifharness/drv/c05"
 	"verifharness/drv/c11"
 	"verifharness/drv/c14"
 	"verifharness/drv/c15"
@@ -56,6 +57,8 @@ func main() {
 		c11.Run(os.Args[2], os.Args[3])
 	case "c11nested":
 		c11.RunNested(os.Args[2])
+	case "c05":
+		c05.Run(os.Args[2], os.Args[3])
 	case "c19x":
 		a := os.Args
 		c19.Explicit(a[2], a[3], atoi(a[4]), atoi(a[5]), atoi(a[6]), a[7] == "1")
